@@ -324,7 +324,11 @@ class Flow:
                 self.assign_log.setdefault(s.target.id, []).append((s, new))
                 self.ev('aug', s, name=s.target.id, op=opn, value=v, new=new)
             else:
-                trf = self.expr(s.target)
+                self.conv.no_distribute = True
+                try:
+                    trf = self.expr(s.target)
+                finally:
+                    self.conv.no_distribute = False
                 if opn == 'Sub':
                     # x[i] -= v is the accumulation x[i] += -v
                     opn, v = 'Add', -v
